@@ -8,6 +8,8 @@ skip/stop choice.
 
 from __future__ import annotations
 
+import contextlib
+import functools
 import warnings
 
 from .. import gen
@@ -125,6 +127,11 @@ class Shape:
         return cut, val
 
 
+@contextlib.contextmanager
+def _passthrough():
+    yield
+
+
 def make_signal(form):
     from nutree import SkipBranch, StopTraversal
 
@@ -147,12 +154,14 @@ def build_tree(cls_name, f, lab="uniq"):
         label, did = (lambda i: "t"), (lambda i: f"id{i}")  # "t" is also the name of the tree
     else:
         label, did = (lambda i: f"n{i}"), None
+    # node ids given by the application on every second node of the `eq` trees (node_id != id(node) there)
+    nid = (lambda i: 900 + i if i % 2 == 0 else None) if lab == "eq" else None
     if cls_name == "typed":
         t = TypedTree("t")
-        nodes = gen.build(t, f, label, kind=lambda i: "kab"[i % 3] + "x", data_id=did)
+        nodes = gen.build(t, f, label, kind=lambda i: "kab"[i % 3] + "x", data_id=did, node_id=nid)
     else:
         t = Tree("t")
-        nodes = gen.build(t, f, label, data_id=did)
+        nodes = gen.build(t, f, label, data_id=did, node_id=nid)
     return t, nodes
 
 
@@ -240,6 +249,30 @@ def _run_case(case, res):
                 res.observe("iterator_sequences", [method, goti])
                 if goti != exp:
                     fail(f"iterator({method}, add_self={add_self}) from {start}: got {goti}, expected {exp}")
+                # an iterator that is abandoned half-way (next(), a `break`), or merely suspended while the tree is read by
+                # other means, leaves no trace: child lists untouched at every moment, later traversals unaffected
+                for k in sorted({1, 2, max(1, len(exp) // 2)}):
+                    if k >= len(exp):
+                        continue
+                    it = t.iterator(im) if start == -1 else sobj.iterator(im, add_self=add_self)
+                    part = [idx_of.get(id(next(it)), "?") for _ in range(k)]
+                    res.count("suspended_iterators")
+                    if part != exp[:k]:
+                        fail(f"iterator({method}) first {k} items: {part}, expected {exp[:k]}")
+                    if struct() != before_struct:
+                        fail(f"while an iterator({method}, add_self={add_self}) from {start} is suspended after {k} items the tree's child lists are changed")
+                        break
+                    other = [idx_of.get(id(n), "?") for n in t]
+                    if other != sh.order(-1, "pre", False):
+                        fail(f"a pre-order walk made while an iterator({method}) is suspended gives {other}")
+                        break
+                    rest = [idx_of.get(id(n), "?") for n in it] if k == 1 else None
+                    if rest is not None and part + rest != exp:
+                        fail(f"iterator({method}) resumed after another walk: {part + rest}, expected {exp}")
+                    del it
+                    if struct() != before_struct:
+                        fail(f"an abandoned iterator({method}, add_self={add_self}) from {start} (stopped after {k} items) left the child lists changed")
+                        break
                 if method == "pre":
                     # `for n in x` syntax is pre-order without self
                     g2 = [idx_of.get(id(n), "?") for n in sobj]
@@ -306,19 +339,42 @@ def _run_case(case, res):
                 if form:
                     how, obj = make_signal(form)
 
+                shape_i = (len(case["f"]) + (sig_at or 0) + len(method) + (1 if add_self else 0)) % 7
+
                 def cb(node, memo):
                     trace.append(idx_of.get(id(node), "?"))
                     memos.append(memo)
                     if sig_at is not None and trace[-1] == sig_at:
                         if how == "raise":
+                            if shape_i in (1, 4):
+                                # the signal passes through the exit of a generator-based context manager on its way out
+                                with _passthrough():
+                                    raise obj
                             raise obj
                         return obj
                     return None
 
+                # the callback is *called with two positional arguments*; what its parameters are named is the user's business
+                def cb_other_names(n, m):
+                    return cb(n, m)
+
+                def cb_underscore(node, _):
+                    return cb(node, _)
+
+                def cb_varargs(*args):
+                    return cb(*args)
+
+                class _Obj:
+                    def method(self, a_node, a_memo):
+                        return cb(a_node, a_memo)
+
+                the_cb = [cb, cb_other_names, cb_underscore, cb_varargs, functools.partial(lambda extra, nd, mm: cb(nd, mm), "x"),
+                          _Obj().method, cb][shape_i]
+                res.count(f"callback_shape:{shape_i}")
                 if start == -1:
-                    ret = t.visit(cb, method=im)
+                    ret = t.visit(the_cb, method=im)
                 else:
-                    ret = sobj.visit(cb, add_self=add_self, method=im)
+                    ret = sobj.visit(the_cb, add_self=add_self, method=im)
                 res.count("visit_traces")
                 res.observe("callback_traces", [method, trace, repr(ret)])
                 res.count(f"cell:{method}:{form}")
